@@ -129,6 +129,7 @@ func driverPP(c *Ctx) {
 		}
 		g := c.gen(i)
 		g.Indexed = i%3 == 0 // names with an index behind them next to their base name: v1 and v1[0]
+		g.Ladder, g.LadderTo = 20, 257
 		if i%4 != 3 {
 			c.emit(i, ppEvent(g.expressible(), "api"))
 			c.count("pp.api")
@@ -657,6 +658,7 @@ func driverConcat(c *Ctx) {
 			continue
 		}
 		g := c.gen(i)
+		g.Ladder, g.LadderTo = 25, 65
 		n := 2 + g.pick(3)
 		var parts []string
 		switch i % 8 {
